@@ -57,6 +57,35 @@ pub fn exec_oracle(kind: &str, fields: &[&str]) -> String {
                 "oracle pass".to_string()
             })
         }
+        "S_INVMOD" => {
+            // the `inv` modifier, behind or in front of the operator's name, exchanges the two directions of the
+            // operator - whatever the operator: `def inv` forward is `def` inverse, and the other way round
+            let def = unescape(fields[0]);
+            let data = parse_data(fields[1]);
+            let plain = run_kind("default", &def, true, &data);
+            let Ok((nf, ff)) = plain else { return "oracle pass not instantiable".to_string() };
+            let Ok((ni, fi)) = run_kind("default", &def, false, &data) else { return "oracle FAIL inverse application failed".to_string() };
+            // (an operator without an inverse - nothing counted, nothing touched - is not what the modifier is for)
+            if ni == 0 && !data.is_empty() && fi.iter().zip(data.iter()).all(|(x, y)| same_bits(x, y)) {
+                return "oracle pass one-way".to_string();
+            }
+            for spelled in [format!("{def} inv"), format!("inv {def}")] {
+                let a = run_kind("default", &spelled, true, &data);
+                let b = run_kind("default", &spelled, false, &data);
+                match (a, b) {
+                    (Ok((na, fa)), Ok((nb, fb))) => {
+                        if na != ni || fa.iter().zip(fi.iter()).any(|(x, y)| !same_bits(x, y)) {
+                            return format!("oracle FAIL {spelled} applied forward is not {def} applied in the inverse direction");
+                        }
+                        if nb != nf || fb.iter().zip(ff.iter()).any(|(x, y)| !same_bits(x, y)) {
+                            return format!("oracle FAIL {spelled} applied in the inverse direction is not {def} applied forward");
+                        }
+                    }
+                    _ => return format!("oracle FAIL {def} instantiates, {spelled} does not (or cannot be applied)"),
+                }
+            }
+            "oracle pass".to_string()
+        }
         "S_C19U" => oracle_c19u(fields),
         "S_C19T" => {
             // a tuple type of a user (any dimension): the accessors and the arithmetic of the trait's defaults are
